@@ -307,7 +307,17 @@ Proof.
   apply dget_In_pair in E. rewrite Forall_forall in H. apply (H _ E).
 Qed.
 
-Theorem filtered_no_derivers s keys l :
+Lemma prod_pos sh : Forall (fun d => 0 < d) sh <-> prod sh <> 0.
+Proof.
+  induction sh as [|d sh IH]; [cbn; split; [discriminate|constructor]|]. rewrite prod_cons. split.
+  - intros H. inversion H; subst. apply IH in H3. nia.
+  - intros H. constructor; [nia|]. apply IH. nia.
+Qed.
+
+Lemma spec_base_length s : items s <> [] -> length (spec_base s) = prod (map (glen (items s)) (groups s)).
+Proof. intros H. unfold spec_base. destruct (items s); [congruence|]. now rewrite map_length, all_indices_length. Qed.
+
+Lemma filtered_no_derivers_pos s keys l :
   wf_sweep s = true -> in_item_order s = true ->
   opt_keys (consts s) = [] -> excl s = None -> ders s = None ->
   Forall (fun kv => NoDup (snd kv)) (items s) ->
@@ -330,7 +340,12 @@ Proof.
     apply dhas_In, Hgk, Hincl. now left. }
   set (f := {| items := items s; dims := Some (filtered_dims s keys); excl := excl s; consts := consts s; ders := None |}).
   assert (Hf : filtered s keys = Ok f).
-  { unfold filtered. rewrite Hd, Hex. reflexivity. }
+  { unfold filtered. rewrite Hd, Hex, He. cbn [negb]. rewrite (len_eq_length s l Hgen). cbn [bind].
+    rewrite (plain_generate s Hwf Hord Hk Hd He) in Hgen. injection Hgen as <-.
+    rewrite (spec_base_length s Hitne).
+    assert (Hp : prod (map (glen (items s)) (groups s)) <> 0).
+    { apply prod_pos. apply Forall_map. exact Hpos. }
+    destruct (prod (map (glen (items s)) (groups s))); [congruence|]. cbn [Nat.eqb]. unfold f. now rewrite He. }
   assert (Hgf : groups f = fgroups keys (groups s)).
   { unfold groups at 1. cbn [f dims]. now apply filtered_groups. }
   assert (Hwff : wf_sweep f = true).
@@ -371,6 +386,38 @@ Proof.
     exists (combo_at it (fgroups keys gs) (rho keys gs idx)). split.
     + apply in_map. apply in_all_indices. now apply rho_in_bounds.
     + pose proof (in_bounds_length _ _ Hidx) as Hli. rewrite map_length in Hli. now apply proj_combo_at.
+Qed.
+
+(* the repaired filtered_sweep looks at the length of the sweep: no guard on empty dimensions is needed *)
+Theorem filtered_no_derivers s keys l :
+  wf_sweep s = true -> in_item_order s = true ->
+  opt_keys (consts s) = [] -> excl s = None -> ders s = None ->
+  Forall (fun kv => NoDup (snd kv)) (items s) ->
+  keys <> [] -> NoDup keys -> incl keys (concat (groups s)) ->
+  generate s = Ok l ->
+  exists f l', filtered s keys = Ok f /\ generate f = Ok l' /\ len f = Ok (length l')
+    /\ nodup_ceq l'
+    /\ (forall x, In x l' -> exists c, In c l /\ ceq (proj keys c) x)
+    /\ (forall c, In c l -> exists x, In x l' /\ ceq (proj keys c) x).
+Proof.
+  intros Hwf Hord Hk He Hd Hvals Hkne Hknd Hincl Hgen.
+  destruct (wf_sweep_parts _ Hwf) as [Hg _].
+  assert (Hgk : forall k, In k (concat (groups s)) -> In k (dkeys (items s))) by (now apply wf_groups_keys).
+  assert (Hitne : items s <> []).
+  { destruct keys as [|k0 ks]; [congruence|]. intros E. specialize (Hgk k0 (Hincl k0 (or_introl eq_refl))).
+    rewrite E in Hgk. contradiction. }
+  assert (Hex : existsb (dhas (items s)) keys = true).
+  { destruct keys as [|k0 ks]; [congruence|]. cbn [existsb]. apply orb_true_iff. left.
+    apply dhas_In, Hgk, Hincl. now left. }
+  destruct l as [|c0 l0] eqn:El.
+  - exists empty_sweep, []. split.
+    + unfold filtered. rewrite Hd, Hex, He. cbn [negb]. rewrite (len_eq_length s [] Hgen). reflexivity.
+    + split; [reflexivity|]. split; [reflexivity|]. split; [exact I|]. split; [intros x []|intros c []].
+  - rewrite <- El in *. apply (filtered_no_derivers_pos s keys l); try assumption.
+    pose proof Hgen as Hgen'. rewrite (plain_generate s Hwf Hord Hk Hd He) in Hgen'. injection Hgen' as Hl.
+    assert (Hp : prod (map (glen (items s)) (groups s)) <> 0).
+    { rewrite <- (spec_base_length s Hitne), Hl, El. discriminate. }
+    apply prod_pos in Hp. rewrite Forall_map in Hp. exact Hp.
 Qed.
 
 (* ---------- "exactly once": with duplicate-free value lists the base combinations are pairwise different ---------- *)
